@@ -16,7 +16,7 @@ import random
 import time
 import traceback
 
-from harness import cands
+from harness import cands, mergetap
 
 META = {
     'property_id': 'C03', 'lean_module': 'Placement.Props.C03', 'category': 'proof',
@@ -27,10 +27,15 @@ META = {
             'enumerator Spec.candidates is proved sound, complete and duplicate-free with respect to it for every '
             'state and query.  The real service is compared with the compiled enumerator on generated states '
             '(<= 7 providers, <= 3 trees of depth <= 3, sharing providers, fractional ratios, reserved = total, steps, '
-            'unit limits, partial and excessive usage) and queries aimed at them; the response must be the same set.',
+            'unit limits, partial and excessive usage) and queries aimed at them; the response must be the same set.  '
+            'In the same runs the merge stage of the code (_merge_candidates: products per anchor, group policy, same '
+            'subtree, consolidation over shared mutable objects, capacity re-check, de-duplication) is compared call by '
+            'call with its Lean model (Model/Merge.lean), the real inputs being captured with object identities.',
     'level_note': 'trusted: Lean kernel; the enumerator is the specification (Appendix D of DESIGN.md, corrected '
                   'against the documentation); query-string parsing is exercised but not modelled; the tie to the '
-                  'code is the sampled equality real response = enumerator output.',
+                  'code is the sampled equality real response = enumerator output, and real _merge_candidates = '
+                  'Merge.mergeCandidates on the captured inputs; the per-group searches (SQL) are tied to the specification '
+                  'only through the end result.',
     'technique': 'Lean 4 proof (enumerator = declarative predicate) + specification/implementation differential runs',
     'design_ref': 'DESIGN.md section 5, C03; Appendix D',
 }
@@ -62,12 +67,18 @@ def lean_set(r, with_maps):
     return set(cands.canon_lean_candidate(c, with_maps) for c in r['candidates'])
 
 
-def compare(a, m, q):
+_TAP = mergetap.MergeTap()
+
+
+def compare(a, m, q, tap=False):
     """-> dict(status_real, status_lean, real(list), lean(set), missing, extra, dup)"""
     with_maps = q['mv'] >= 34
+    _TAP.calls = []
     url, ver, r = ask_real(a, q)
+    merge_vio, merge_n = _TAP.check(m) if tap else ([], 0)
     lr = ask_lean(m, q)
-    out = {'url': url, 'version': ver, 'status_real': r.status, 'status_lean': lr['status']}
+    out = {'url': url, 'version': ver, 'status_real': r.status, 'status_lean': lr['status'], 'merge_vio': merge_vio,
+           'merge_calls': merge_n}
     if r.status != 200 or lr['status'] != 200:
         out.update(real=[], lean=set(), missing=set(), extra=set(), dup=False,
                    body=r.json if r.status != 200 else None)
@@ -510,8 +521,14 @@ def case(args):
                 q = cands.gen_query_witness(rng, v)
             else:
                 q = cands.gen_query(rng, v)
-            c = compare(a, m, q)
+            _TAP.install()
+            c = compare(a, m, q, tap=True)
             out['evals'] += 1
+            out['merge_calls'] = out.get('merge_calls', 0) + c['merge_calls']
+            for sig, detail, cmd in c['merge_vio']:
+                out['violations'].append({'kind': 'correspondence', 'signature': sig, 'detail': detail,
+                                          'replay': {'type': 'state+query', 'module': 'harness.props.c03', 'dump': dump, 'query': q,
+                                                     'method': 'GET', 'url': c['url'], 'version': c['version'], 'merge_input': cmd}})
             st = '%s/%s' % (c['status_real'], c['status_lean'])
             out['status'][st] = out['status'].get(st, 0) + 1
             f = sorted(cands.features(q, v))
@@ -546,7 +563,7 @@ def case(args):
                                            'expected=observed': [cands.show(x) for x in sorted(c['lean'])][:2]})
             if disagree(c):
                 report(a, m, dump, q, c, out)
-    except Exception:
+    except BaseException:      # incl. an escaped RequestHang: a dead pool worker would hang the check
         out['error'] = traceback.format_exc()
     return out
 
@@ -564,6 +581,7 @@ def run_cases(chk, n_states, nq, p_old, procs=None):
                 continue
             chk.cov['evaluations'] += res['evals']
             chk.count('states', 1)
+            chk.count('merge_stage_calls_compared_with_model', res.get('merge_calls', 0))
             for h in res['distinct']:
                 chk._distinct.add(h)
             for key, tk in (('feat', 'by_feature'), ('by_mv', 'by_microversion'), ('sizes', 'expected_set_size'),
